@@ -22,6 +22,11 @@ def sh(cmd, **kw):
     return subprocess.run(cmd, shell=True, stdout=subprocess.PIPE, stderr=subprocess.STDOUT, text=True, **kw)
 
 
+# defects first seen by one property's campaign whose inputs that campaign has to
+# avoid since (classes of recorded known findings); the check that still reaches them
+ALSO = {'951a5a3': ['C05'], 'a33a199': ['C05']}
+
+
 def fixed_map():
     m = {}
     for line in open('/verif/known_findings.jsonl'):
@@ -36,6 +41,8 @@ def props_for(name, fm):
     if mm:
         return [mm.group(1)]
     mm = re.match(r'revert-([0-9a-f]{7})-', name)
+    if mm and mm.group(1) in ALSO:
+        return ALSO[mm.group(1)]
     if mm and mm.group(1) in fm:
         return [fm[mm.group(1)]]
     return []
